@@ -10,3 +10,16 @@ package signaling_rpc
 //@   ensures ret2 == nil ==> m != nil && m.SignedMsg != nil && b58ok(m.SignedMsg.FromPeerId) && ret1 == b58dec(m.SignedMsg.FromPeerId)
 //@   ensures ret2 == nil ==> ret0 != nil && rawPub(ret0) == pubKeyFromPB(mhDigest(ret1)) && m.SignedMsg.Signature != nil
 //@   ensures ret2 == nil ==> edVerify(rawPub(ret0), signBody("bifrost/signaling/rpc session msg 2024-06-05T02:45:07.208906Z", m.SignedMsg.Signature.HashType, digest(m.SignedMsg.Signature.HashType, m.SignedMsg.Data)), m.SignedMsg.Signature.SigData)
+
+// ---- the relay-to-client session stream as ghost state (C22) ----
+// sessAnnounced[strm]: the session epoch last announced on strm with an Opened response (0 after a
+// Closed response or before any announcement). Send records Opened/Closed announcements; other
+// responses leave it alone. Send does not touch the modelled heap.
+//@ ghost heap sessAnnounced iface int
+//@ iface SRPCSignaling_SessionStream.Send writes G_sessAnnounced
+//@ iface SRPCSignaling_SessionStream.Send ensures istype(arg0.Body, ptr(SessionResponse_Opened)) ==> sessAnnounced[recv] == unboxed(arg0.Body, ptr(SessionResponse_Opened)).Opened
+//@ iface SRPCSignaling_SessionStream.Send ensures istype(arg0.Body, ptr(SessionResponse_Closed)) ==> sessAnnounced[recv] == 0
+//@ iface SRPCSignaling_SessionStream.Send ensures !istype(arg0.Body, ptr(SessionResponse_Opened)) && !istype(arg0.Body, ptr(SessionResponse_Closed)) ==> sessAnnounced[recv] == old(sessAnnounced[recv])
+//@ iface SRPCSignaling_SessionStream.Send ensures forall x iface :: x != recv ==> sessAnnounced[x] == old(sessAnnounced[x])
+//@ iface SRPCSignaling_SessionStream.Recv writes none
+//@ iface SRPCSignaling_SessionStream.Context pure
